@@ -706,3 +706,47 @@ example :
      ((Conv.chain fold [c1, c2] false).toOption.map (·.records.length),
       (Conv.chain fold [c1, c2] true).toOption.map (·.records.length))) = (some 1, some 2) := by
   decide
+
+/-- the fold inside `chain`, at the level of record lists -/
+theorem chainFold_refines (fold : Str → Str) (cs : Bool) (c : Conv) (recs : List Record) (h : WF c)
+    (hr : ∀ r ∈ recs, RecOK r) :
+    (chainFold fold cs c recs).toOption.map (·.records) =
+      recs.foldlM (fun acc r => Spec.afterAdd fold acc r cs true) c.records := by
+  unfold chainFold
+  induction recs generalizing c with
+  | nil => rfl
+  | cons r rs ih =>
+    rw [List.foldlM_cons, List.foldlM_cons]
+    cases h1 : c.addRecord fold r cs true with
+    | error e =>
+      rw [C05_afterAdd_reject fold h r cs true e h1]
+      rfl
+    | ok c1 =>
+      rw [C05_afterAdd fold h r cs true h1]
+      have hw1 := wf_addRecord fold h (hr r (by simp)) h1
+      exact ih c1 hw1 (fun x hx => hr x (by simp [hx]))
+
+/-- **C09 (chain, as a function on record lists).** Whether `chain` succeeds and which records its result holds is
+decided by the record lists of the inputs alone: fold `add_record(merge=True)` — as `Spec.afterAdd` describes it
+without any lookup structure — over all records in order, starting from nothing. -/
+theorem C09_chain_refines (fold : Str → Str) (convs : List Conv) (cs : Bool) (hne : convs ≠ [])
+    (hw : ∀ c ∈ convs, WF c) :
+    (Conv.chain fold convs cs).toOption.map (·.records) = Spec.chainRecords fold cs (convs.map (·.records)) := by
+  rw [chain_eq fold convs cs hne]
+  have hr : ∀ r ∈ convs.flatMap (·.records), RecOK r := by
+    intro r hr
+    obtain ⟨c, hc, hrc⟩ := List.mem_flatMap.mp hr
+    exact (hw c hc).recOK r hrc
+  rw [chainFold_refines fold cs Conv.empty _ wf_empty hr]
+  unfold Spec.chainRecords
+  rw [List.flatMap_def]
+  rfl
+
+/-- **C09 (get_subconverter, as a function on record lists).** The restriction holds exactly the records
+`Spec.subRecords` selects, up to the constructor's sorting. -/
+theorem C09_sub_refines {c c' : Conv} (P : List Str) (hc' : c.getSubconverter P = .ok c') :
+    c'.records.Perm (Spec.subRecords c.records P) := by
+  unfold Conv.getSubconverter at hc'
+  have ⟨e1, _⟩ := init?_records hc'
+  rw [e1]
+  exact sortRecords_perm _
